@@ -95,6 +95,15 @@ std::string Model::getFormalArgBaseNameForSymbol(Logic const & logic, SymRef sr,
     return formalArgDefaultPrefix;
 }
 
+bool Model::isFormalArgNameFree(Logic & logic, std::string const & name, SRef sort) {
+    if (not logic.hasSym(name.c_str())) { return true; }
+    for (SymRef other : logic.symNameToRef(name.c_str())) {
+        Symbol const & sym = logic.getSym(other);
+        if (sym.nargs() != 0 or sym.rsort() != sort) { return false; }
+    }
+    return true;
+}
+
 TemplateFunction Model::getDefinition(SymRef sr) const {
     if (symDef.find(sr) != symDef.end()) {
         return symDef.at(sr);
@@ -104,11 +113,14 @@ TemplateFunction Model::getDefinition(SymRef sr) const {
         vec<PTRef> formalArgs;
         formalArgs.growTo(logic.getSym(sr).nargs());
         std::string varNameBase = getFormalArgBaseNameForSymbol(logic, sr, formalArgDefaultPrefix);
+        unsigned num = 0;
         for (int i = 0; i < (int)logic.getSym(sr).nargs(); i++) {
             SRef argSort = logic.getSym(sr)[i];
-            std::stringstream ss;
-            ss << varNameBase << i;
-            formalArgs[i] = logic.mkVar(argSort, ss.str().c_str());
+            std::string name;
+            do {
+                name = varNameBase + std::to_string(num++);
+            } while (not isFormalArgNameFree(logic, name, argSort));
+            formalArgs[i] = logic.mkVar(argSort, name.c_str());
         }
         return TemplateFunction(symName, formalArgs, logic.getSym(sr).rsort(),
                                 logic.getDefaultValuePTRef(logic.getSym(sr).rsort()));
